@@ -156,6 +156,60 @@ def p_transformers_all(ops):
     return not bad, bad[0] if bad else "all transformers agree with fresh ones"
 
 
+def tmerc_spec(i: int) -> str:
+    lon0 = -170 + (i % 340)
+    lat0 = (i // 340) * 7 - 40
+    return f"+proj=tmerc +lat_0={lat0} +lon_0={lon0} +k=0.9996 +x_0=500000 +y_0=0 +datum=WGS84 +units=m +no_defs"
+
+
+def unpinned_transformer_keys():
+    """transformer-cache keys naming an id that no pyproj object held by _crs_cache has (the object can be
+    freed and its id reused): the invariant of Props/C19.v C19_transformer_keys_pinned on the real module state"""
+    from odc.geo import crs as M
+    held = {id(v[0]) for v in M._crs_cache.values()}
+    return [k for k in M._make_crs_transform.cache.keys() if not (k[0] in held and k[1] in held)]
+
+
+def p_many_crs(n, behaviour_only=False):
+    """n distinct (cheap, custom transverse-mercator) CRSs are built, asked for a transformer to and from EPSG:4326 and
+    dropped: every transformer must agree with a freshly built pyproj one, and (structural form of the same clause) every
+    id in a transformer-cache key must stay pinned by _crs_cache -- whatever n is"""
+    from odc.geo import crs as M
+    from pyproj import Transformer
+    from pyproj.crs import CRS as P
+    M._crs_cache.clear()
+    M._make_crs_transform.cache.clear()
+    wgs = M.CRS("EPSG:4326")
+    pw = P.from_epsg(4326)
+    x, y = 512345.0, 123456.0
+    structural = ""
+    for i in range(n):
+        s = tmerc_spec(i)
+        c = M.CRS(s)
+        f = c.transformer_to_crs(wgs)
+        got = tuple(f(x, y))
+        want = tuple(Transformer.from_crs(P.from_user_input(c._crs.srs), pw, always_xy=True).transform(x, y))
+        if repr(got) != repr(want):
+            return False, (f"construction {i}: CRS({s!r}).transformer_to_crs(EPSG:4326) maps ({x},{y}) to {got}, a fresh transformer to {want}"
+                           + (f"; earlier: {structural}" if structural else ""))
+        if i % 7 == 0:
+            g = wgs.transformer_to_crs(c)
+            got = tuple(g(10.5, 20.25))
+            want = tuple(Transformer.from_crs(pw, P.from_user_input(c._crs.srs), always_xy=True).transform(10.5, 20.25))
+            if repr(got) != repr(want):
+                return False, f"construction {i}: EPSG:4326 -> CRS({s!r}) maps (10.5,20.25) to {got}, a fresh transformer to {want}"
+            del g
+        del c, f
+        if not structural and not behaviour_only and i % 50 == 49:
+            bad = unpinned_transformer_keys()
+            if bad:
+                structural = (f"after {i + 1} distinct CRS constructions {len(bad)} transformer-cache keys name ids of pyproj objects "
+                              f"that _crs_cache no longer holds (len(_crs_cache)={len(M._crs_cache)})")
+    if structural:
+        return False, structural
+    return True, f"{n} transformers agree with fresh ones; all transformer-cache ids pinned"
+
+
 def attack_histories(rng, n):
     """histories aimed at id reuse: build a pair, request its transformer, drop everything, build other systems
     (several spellings, so that a bounded cache would evict) and request transformers among them"""
@@ -253,11 +307,42 @@ def p_gcp_pickle():
     return not bad, "; ".join(bad) or "clones equal, same hash and token"
 
 
-def family_pair(family, i, j, clause, tier="quick"):
+def p_array_tokens():
+    """unequal GCP geoboxes / tilings whose arrays have the same numpy repr must not share a dask token"""
+    import math
+    import numpy as np
+    from dask.base import tokenize
+    from odc.geo.gcp import GCPGeoBox, GCPMapping
+    from odc.geo.roi import VariableSizedTiles
+    pix = np.array([(0, 0), (10, 0), (0, 10), (10, 10), (5, 5), (3, 7)], dtype=float)
+    wld = np.array([(100, 50), (110, 50), (100, 40), (110, 40), (105, 45), (103, 43)], dtype=float)
+    wld2 = wld.copy()
+    wld2[0, 0] = math.nextafter(100.0, math.inf)
+    a, b = GCPGeoBox((10, 10), GCPMapping(pix, wld, "EPSG:4326")), GCPGeoBox((10, 10), GCPMapping(pix, wld2, "EPSG:4326"))
+    many = [1] * 1200
+    many2 = list(many)
+    many2[600], many2[601] = 2, 0
+    x, y = VariableSizedTiles((tuple(many), (5,))), VariableSizedTiles((tuple(many2), (5,)))
+    bad = []
+    if a != b and tokenize(a) == tokenize(b):
+        bad.append("GCPGeoBoxes whose world points differ by one ulp are != but share a token")
+    if x != y and tokenize(x) == tokenize(y):
+        bad.append("VariableSizedTiles with 1200 chunks differing in the middle are != but share a token")
+    return not bad, "; ".join(bad) or "distinct tokens"
+
+
+def family_pair(family, i, j, clause, tier="quick", via=None):
     """replay of a part (b) finding: rebuild the (deterministic) family and evaluate the clause"""
+    from odc.geo import crs as M
     from vlib import c19crs, c19vals
-    w = c19crs.World()
+    w = c19crs.World(codes=c19crs.CODES if tier == "quick" else (4326, 3857, 32633))
+    M._crs_cache.clear()
+    M._make_crs_transform.cache.clear()
     fam = c19vals.families(w, tier)[family]
+    if clause == "trans":
+        a, b, c = fam[i][1], fam[via][1], fam[j][1]
+        ok = not (a == b and b == c) or a == c
+        return ok, f"{fam[i][0]} == {fam[via][0]}: {a == b}; {fam[via][0]} == {fam[j][0]}: {b == c}; {fam[i][0]} == {fam[j][0]}: {a == c}"
     return pair_clause(fam[i][1], fam[j][1], clause)
 
 
@@ -281,7 +366,7 @@ def pair_clause(a, b, clause):
     raise ValueError(clause)
 
 
-PREDICATES = {"transformers-all": p_transformers_all, "crs-relation": p_crs_relation, "history": p_history, "transformer": p_transformer, "tiles-token": p_tiles_token, "gcp-pickle": p_gcp_pickle,
+PREDICATES = {"array-tokens": p_array_tokens, "many-crs": p_many_crs, "transformers-all": p_transformers_all, "crs-relation": p_crs_relation, "history": p_history, "transformer": p_transformer, "tiles-token": p_tiles_token, "gcp-pickle": p_gcp_pickle,
               "lossless": p_lossless, "family-pair": family_pair}
 
 
@@ -423,6 +508,12 @@ def part_a(out, tier, scratch, w):
         out.case(("attack", ops), True)
         if not ok:
             viol("c19:transformer-pair", detail, {"predicate": "transformers-all", "args": [ops], "observed": detail})
+    for n in ((1100,) if tier == "quick" else (300, 1100, 5000)):
+        ok, detail = p_many_crs(n)
+        out.count("predicate:many-crs", n)
+        out.case(("many-crs", n), True)
+        if not ok:
+            viol("c19:transformer-pair", detail, {"predicate": "many-crs", "args": [n], "observed": detail})
     for n in w.codes:
         for h in ([], [port_op(w, ("crs", ("pynew", w.by_code[n]["upper"])))], [port_op(w, ("crs", ("str", w.by_code[n]["wkt"])))]):
             ok, detail = p_lossless(h, n)
@@ -484,7 +575,8 @@ def part_b(out, tier, scratch, w):
             found.add(key)
             out.violation(key, what, rp)
 
-    for name, fam in fams.items():
+    for fname, fam in fams.items():
+        name = fname.split("~")[0]
         n = len(fam)
         eq = [[None] * n for _ in range(n)]
         for i, j in itertools.product(range(n), range(n)):
@@ -493,42 +585,44 @@ def part_b(out, tier, scratch, w):
             eq[i][j] = e
             hs = "None" if h is None else f"(Some {cbool(h)})"
             cases.append(f"CPairI {enc.ref(a)}%nat {enc.ref(b)}%nat {cbool(e)} {hs} {cbool(t)}")
-            meta.append((name, i, j))
+            meta.append((fname, i, j))
             out.count(f"pair:{name}:{'eq' if e else 'ne'}")
             out.case(("pair", name, i, j), True, {"type": name, "a": str(da), "b": str(db), "eq": e, "hash_eq": h, "token_eq": t}
                      if (i, j) == (0, 1) else None)
-            rp = {"predicate": "family-pair", "args": [name, i, j]}
+            rp = {"predicate": "family-pair"}
             if e and h is False:
                 key = K_EQHASH if spelling_difference(a, b) else f"c19:{name}:eq-hash"
-                viol(key, f"{name} {da} == {db} but hashes differ", {**rp, "args": [name, i, j, "hash"]})
+                viol(key, f"{name} {da} == {db} but hashes differ", {**rp, "args": [fname, i, j, "hash", tier]})
             if not e and t:
-                viol(f"c19:{name}:token-collision", f"unequal {name} {da} / {db} share a dask token", {**rp, "args": [name, i, j, "token"]})
+                viol(f"c19:{name}:token-collision", f"unequal {name} {da} / {db} share a dask token", {**rp, "args": [fname, i, j, "token", tier]})
         for i in range(n):
             if not eq[i][i]:
-                viol(f"c19:{name}:refl", f"{name} {fam[i][0]} != itself", {"predicate": "family-pair", "args": [name, i, i, "sym"]})
+                viol(f"c19:{name}:refl", f"{name} {fam[i][0]} != itself", {"predicate": "family-pair", "args": [fname, i, i, "sym", tier]})
             for j in range(n):
                 if eq[i][j] != eq[j][i]:
                     viol(f"c19:{name}:sym", f"{name} {fam[i][0]} vs {fam[j][0]}: == is not symmetric",
-                         {"predicate": "family-pair", "args": [name, i, j, "sym"]})
+                         {"predicate": "family-pair", "args": [fname, i, j, "sym", tier]})
                 if eq[i][j]:
                     for k in range(n):
                         if eq[j][k] and not eq[i][k]:
                             viol(f"c19:{name}:trans", f"{name}: {fam[i][0]} == {fam[j][0]} == {fam[k][0]} but first != last",
-                                 {"predicate": "family-pair", "args": [name, i, k, "sym"], "via": j})
+                                 {"predicate": "family-pair", "args": [fname, i, k, "trans", tier, j]})
         for i, (d, a) in enumerate(fam):
             ok, detail = pair_clause(a, a, "clone")
             out.count(f"clone:{name}")
             if not ok:
-                viol(f"c19:{name}:pickle", f"{name} {d}: {detail}", {"predicate": "family-pair", "args": [name, i, i, "clone"], "observed": detail})
+                viol(f"c19:{name}:pickle", f"{name} {d}: {detail}", {"predicate": "family-pair", "args": [fname, i, i, "clone", tier], "observed": detail})
             for how, c in c19vals.clones(a).items():
                 if how == "pickle":
                     cases.append(f"CPickleI {enc.ref(a)}%nat {enc.ref(c)}%nat")
-                    meta.append((name, i, how))
+                    meta.append((fname, i, how))
+                out.case(("clone", fname, i, how), True)
+                if how != "pickle":
+                    continue        # copy / deepcopy clones are checked by the predicate above only (keeps the value table small)
                 e, h, t = c19vals.observe_pair(a, c)
                 hs = "None" if h is None else f"(Some {cbool(h)})"
                 cases.append(f"CPairI {enc.ref(a)}%nat {enc.ref(c)}%nat {cbool(e)} {hs} {cbool(t)}")
-                meta.append((name, i, how))
-                out.case(("clone", name, i, how), True)
+                meta.append((fname, i, how))
     gbad = enc.geom_contract_failures()
     out.oblige("oracle-contract:shapely == is an equivalence and GeoJSON round trips exactly on the geometries used", "oracle-contract",
                not gbad, "; ".join(gbad[:5]))
@@ -538,13 +632,14 @@ def part_b(out, tier, scratch, w):
     if fails:
         detail = f"{len(fails)} value cases differ; first: {meta[fails[0]]}: {cases[fails[0]][:600]}"
         for i in fails[:3]:
-            name, a, b = meta[i]
+            fname, a, b = meta[i]
+            name = fname.split("~")[0]
             if isinstance(b, int):
                 for clause in ("sym", "hash", "token"):
-                    ok, d = pair_clause(fams[name][a][1], fams[name][b][1], clause)
+                    ok, d = pair_clause(fams[fname][a][1], fams[fname][b][1], clause)
                     if not ok:
-                        viol(f"c19:{name}:{clause}", f"{name} {fams[name][a][0]} / {fams[name][b][0]}: {d}",
-                             {"predicate": "family-pair", "args": [name, a, b, clause], "observed": d})
+                        viol(f"c19:{name}:{clause}", f"{name} {fams[fname][a][0]} / {fams[fname][b][0]}: {d}",
+                             {"predicate": "family-pair", "args": [fname, a, b, clause, tier], "observed": d})
     out.oblige("correspondence:Model.ValueObjs vs ==/hash/tokenize/pickle of the value types", "correspondence", not fails, detail)
     return len(cases)
 
